@@ -21,6 +21,12 @@ func c14Gens(base func(w *World) []OpGen) func(w *World) []OpGen {
 		g := base(w)
 		g = append(g,
 			OpGen{"ctl.breaker", 3, func(w *World, r *Rng) *Event {
+				if _, has := w.Cfg.Knobs["breaker_w"]; has && w.Cfg.K("breaker_w") == 0 {
+					return nil
+				}
+				if w.Cfg.K("breaker_w") == 1 && !r.Chance(1, 3) {
+					return nil
+				}
 				apps, _ := w.App.AssetKeeper.GetApps(w.Ctx())
 				if len(apps) == 0 {
 					return nil
@@ -38,7 +44,7 @@ func c14Gens(base func(w *World) []OpGen) func(w *World) []OpGen {
 				}
 				return ev
 			}},
-			OpGen{"ctl.esm_deposit", 2, func(w *World, r *Rng) *Event {
+			OpGen{"ctl.esm_deposit", 4, func(w *World, r *Rng) *Event {
 				if w.Cdp == nil || w.Cfg.K("esm") == 0 {
 					return nil
 				}
@@ -53,7 +59,7 @@ func c14Gens(base func(w *World) []OpGen) func(w *World) []OpGen {
 				}
 				return w.TxEvent("ctl.esm_deposit", a, &esmtypes.MsgDepositESM{AppId: w.Cdp.AppID, Depositor: a.Bech(), Amount: sdk.NewCoin(w.Cdp.Gov.Denom, amt)})
 			}},
-			OpGen{"ctl.esm_execute", 1, func(w *World, r *Rng) *Event {
+			OpGen{"ctl.esm_execute", 2, func(w *World, r *Rng) *Event {
 				if w.Cdp == nil || w.Cfg.K("esm") == 0 {
 					return nil
 				}
